@@ -375,5 +375,11 @@ func c20Endpoints() map[string]*c20EP {
 	for _, e := range eps {
 		m[e.name] = e
 	}
+	for _, e := range c20EndpointsMore() {
+		if m[e.name] != nil {
+			infra("endpoint %s is implemented twice", e.name)
+		}
+		m[e.name] = e
+	}
 	return m
 }
